@@ -17,6 +17,7 @@ import (
 	"fmt"
 	"math"
 	"math/rand"
+	"net"
 	"net/netip"
 	"os"
 	"path/filepath"
@@ -24,6 +25,7 @@ import (
 	"sync/atomic"
 	"time"
 
+	"golang.zx2c4.com/wireguard/conn"
 	"golang.zx2c4.com/wireguard/ratelimiter"
 )
 
@@ -101,10 +103,42 @@ func runImpl(addrs []netip.Addr, ops []Op, skipGc bool, only int) (obs []int64, 
 	return
 }
 
+// udpAddrOf is the source address of a datagram as the kernel reports it to
+// the bind: 4 bytes on the IPv4 socket, 16 bytes plus the zone (interface) on
+// the IPv6 socket.
+func udpAddrOf(a netip.Addr) *net.UDPAddr {
+	if a.Is4() {
+		b := a.As4()
+		return &net.UDPAddr{IP: b[:], Port: 51820}
+	}
+	b := a.As16()
+	return &net.UDPAddr{IP: b[:], Port: 51820, Zone: a.Zone()}
+}
+
+// KeyMismatch records a source address for which the endpoint built by the
+// real receive path (conn.StdNetBind.receiveIP) names another address.
+var keyMismatch = map[string]string{}
+
+// parseAddrs returns, for each source address, the key the device hands to the
+// limiter: the datagram goes through the real (*StdNetBind).receiveIP
+// (conn.VerifReceiveIP) and the key is Endpoint.DstIP() of the endpoint built.
 func parseAddrs(ss []string) []netip.Addr {
 	as := make([]netip.Addr, len(ss))
+	srcs := make([]*net.UDPAddr, len(ss))
 	for i, s := range ss {
 		as[i] = netip.MustParseAddr(s)
+		srcs[i] = udpAddrOf(as[i])
+	}
+	eps, err := conn.VerifReceiveIP(srcs)
+	if err != nil || len(eps) != len(ss) {
+		panic(fmt.Sprint("VerifReceiveIP: ", err, len(eps)))
+	}
+	for i := range ss {
+		k := eps[i].DstIP()
+		if k != as[i] {
+			keyMismatch[ss[i]] = k.String()
+		}
+		as[i] = k
 	}
 	return as
 }
@@ -148,7 +182,7 @@ func addrPool(r *rand.Rand) []string {
 		case 4, 5:
 			add(fmt.Sprintf("2001:db8::%x:%x", c, b+1))
 		case 6:
-			add(fmt.Sprintf("fe80::%x", uint16(b)+1))
+			add(fmt.Sprintf("fe80::%x%s", uint16(b%2)+1, []string{"", "%eth0", "%eth1", "%eth0", "%eth1"}[r.Intn(5)]))
 		default:
 			add([]string{"0.0.0.0", "::", "255.255.255.255", "ffff:ffff:ffff:ffff:ffff:ffff:ffff:ffff", "::1", "127.0.0.1", "0.0.0.1", "::c0a8:1"}[r.Intn(8)])
 		}
@@ -177,10 +211,17 @@ func addSat(t, g int64) int64 {
 
 func genHistory(r *rand.Rand, n int) Case {
 	pool := addrPool(r)
+	zoned := r.Intn(8) == 0
+	if zoned { // the same link-local address on two links (and without zone): three different sources
+		pool = []string{"fe80::1%eth0", "fe80::1%eth1", "fe80::1", "fe80::1%wg0"}[:2+r.Intn(3)]
+	}
 	gaps := gapTable()
 	pc, gc := consts["packetCost"], consts["garbageCollectTime"]
 	kinds := []string{"mixed", "mixed", "mixed", "burst", "spaced", "gc-edge", "idle", "boundary-walk", "far-future", "overflow", "backwards"}
 	kind := kinds[r.Intn(len(kinds))]
+	if zoned {
+		kind = []string{"spaced", "spaced", "burst", "mixed"}[r.Intn(4)]
+	}
 	t := starts[r.Intn(len(starts))]
 	if kind == "overflow" {
 		t = []int64{math.MinInt64, math.MinInt64 + 5, -(1 << 62) - 7, 0}[r.Intn(4)]
@@ -319,6 +360,9 @@ func genHistory(r *rand.Rand, n int) Case {
 	if kind == "spaced" {
 		pa = spacedAddr
 	}
+	if zoned {
+		kind = "zoned-" + kind
+	}
 	return Case{Addrs: pool, Ops: ops, Pa: pa, Gen: kind}
 }
 
@@ -438,17 +482,30 @@ func timeInts(t int64) (uint64, uint64) {
 	return u >> 32, u & 0xffffffff
 }
 
+// zone identities: one number per distinct zone string (0 = no zone)
+var zoneIDs = map[string]int{"": 0}
+
+func zoneID(z string) int {
+	if id, ok := zoneIDs[z]; ok {
+		return id
+	}
+	id := len(zoneIDs)
+	zoneIDs[z] = id
+	return id
+}
+
+// address = zone identity, family, 128 bits
 func addrInts(s string) string {
 	a := netip.MustParseAddr(s)
 	if a.Is4() {
 		b := a.As4()
-		return fmt.Sprintf("4;0;0;0;%d", uint32(b[0])<<24|uint32(b[1])<<16|uint32(b[2])<<8|uint32(b[3]))
+		return fmt.Sprintf("0;4;0;0;0;%d", uint32(b[0])<<24|uint32(b[1])<<16|uint32(b[2])<<8|uint32(b[3]))
 	}
 	b := a.As16()
 	w := func(i int) uint32 {
 		return uint32(b[i])<<24 | uint32(b[i+1])<<16 | uint32(b[i+2])<<8 | uint32(b[i+3])
 	}
-	return fmt.Sprintf("6;%d;%d;%d;%d", w(0), w(4), w(8), w(12))
+	return fmt.Sprintf("%d;6;%d;%d;%d;%d", zoneID(a.Zone()), w(0), w(4), w(8), w(12))
 }
 
 func boolList(bs []bool) string {
@@ -665,7 +722,7 @@ func main() {
 			idx = end
 		}
 	}
-	meta := map[string]any{"seed": *seed, "shards": infos}
+	meta := map[string]any{"seed": *seed, "shards": infos, "key_mismatch": keyMismatch}
 	if concCase != nil {
 		if err := writeConc(filepath.Join(*out, "cases_C19_conc.v"), concCase.Conc); err != nil {
 			panic(err)
